@@ -397,7 +397,7 @@ pub fn check_one(side: &str, wbits: usize, nwords: usize, tail: usize, bound: us
 
 pub fn c11(ctx: &Ctx) -> (CheckMeta, Outcome) {
     let mut tasks: Vec<Task> = vec![];
-    let bound = if ctx.thorough { 4 } else { 3 };
+    let bound = if ctx.thorough { 5 } else { 3 };
     for wbits in [8usize, 16, 32, 64, 128] {
         for nwords in 1..=3usize {
             tasks.push(Box::new(move || {
@@ -428,7 +428,7 @@ pub fn c11(ctx: &Ctx) -> (CheckMeta, Outcome) {
     let meta = CheckMeta {
         property: "C11".into(),
         level: "model_checking".into(),
-        rule: "deviation-bounded exploration of the environment: the Read/Write wrapped by WordAdapter answers every call by an explorer choice (write: whole buffer | every short count 0..len-1 | Interrupted | hard error; flush: Ok | Err; read: as much as possible | every short count | Interrupted | hard error | EOF); ALL schedules with at most 3 (thorough 4) deviations from the default answer, for word sizes 8..128 and sequences of 1..3 words (reads: plus a partial trailing word of 0, 1, W/8-1 bytes); oracle: every write_word that returned Ok has put exactly its native-endian bytes, once and in order, into the sink; every Ok(read_word) is the next W/8 source bytes and exactly those were consumed; a partial trailing word is an error. states = schedules executed, transitions = environment calls. Plus explicit-state BFS (depth 6, thorough 7) of WordAdapter over a seekable Cursor (read_word, write_word, set_word_pos 0..6, word_pos) against a byte-vector model: word_pos = words preceding the cursor after every call, seeking addresses that word. Bit streams through the adapter vs memory are part of C01 (backend 'adapter'), C02/C07 (backends 'cursor', 'bufreader')".into(),
+        rule: "deviation-bounded exploration of the environment: the Read/Write wrapped by WordAdapter answers every call by an explorer choice (write: whole buffer | every short count 0..len-1 | Interrupted | hard error; flush: Ok | Err; read: as much as possible | every short count | Interrupted | hard error | EOF); ALL schedules with at most 3 (thorough 5) deviations from the default answer, for word sizes 8..128 and sequences of 1..3 words (reads: plus a partial trailing word of 0, 1, W/8-1 bytes); oracle: every write_word that returned Ok has put exactly its native-endian bytes, once and in order, into the sink; every Ok(read_word) is the next W/8 source bytes and exactly those were consumed; a partial trailing word is an error. states = schedules executed, transitions = environment calls. Plus explicit-state BFS (depth 6, thorough 7) of WordAdapter over a seekable Cursor (read_word, write_word, set_word_pos 0..6, word_pos) against a byte-vector model: word_pos = words preceding the cursor after every call, seeking addresses that word. Bit streams through the adapter vs memory are part of C01 (backend 'adapter'), C02/C07 (backends 'cursor', 'bufreader')".into(),
         assumptions: vec!["the environment alphabet covers what std::io::Read/Write allow: short transfers, Interrupted, errors".into()],
     };
     (meta, out)
